@@ -46,7 +46,9 @@
    Ghost state: reg / wake (phase tag in which a task registered / for which a wake-up was
    issued), ph (phases entered), gid (incarnation number of the task an object is bound to:
    fresh per create / rebind), the event log (events are keyed by incarnation).
-   Not modelled (see notes/design/C01.md): yield_to / next_thrd, priorities and queue selection
+   yield_to / next_thrd: the act YieldTo is a plain yield HERE (fragment); the hand-over is in
+   Model/SchedY.v (tstepY wraps tstep).
+   Not modelled (see notes/design/C01.md): priorities and queue selection
    (subsumed by the oracle), state_ex (constantly `signaled` in this fragment), timed
    suspension, abort_all_suspended_threads at shutdown, counted references held by user code
    (pika::thread, the id returned by register_thread: they only delay recycling). *)
@@ -65,7 +67,12 @@ Inductive act :=
   | Suspend                                (* this_thread::suspend: do_yield(suspended) *)
   | Register                               (* link a waiter entry under the primitive's lock *)
   | Spawn (b : list act) (run_now : bool)  (* create_work / create_thread *)
-  | Resume (u : nat).                      (* pop u's entry (if any) and agent.resume() *)
+  | Resume (u : nat)                       (* pop u's entry (if any) and agent.resume() *)
+  | YieldTo (u : nat).                     (* this_thread::yield_to(u): do_yield(pending) with next
+                                              thread id u.  In THIS step function (the fragment
+                                              without yield_to) the hint is ignored: a plain yield;
+                                              the hand-over is modelled by tstepY (Model/SchedY.v),
+                                              which coincides with tstep on programs without YieldTo *)
 
 Inductive body :=
   | UserBody (l : list act)
@@ -86,7 +93,9 @@ Inductive ev :=
   | EvExit (t : nat) (k : nat) (wk : nat) (ret : sst)
   | EvIssue (u : nat) (p : option N)                 (* wake-up issued; Some p: u was registered in phase p *)
   | EvAbort (h u : nat) (prev cur : word)            (* helper h of u aborted *)
-  | EvSpur (u : nat) (q : N).                        (* suspended(q) -> pending without a wake-up issued for it *)
+  | EvSpur (u : nat) (q : N)                         (* suspended(q) -> pending without a wake-up issued for it *)
+  | EvHelp (u : nat) (prev : word).                  (* ghost: a retry helper was created for incarnation u, which was
+                                                        found active with word prev (set_thread_state, hook 208) *)
 
 (* tasks is indexed by thread OBJECT; ntasks = number of objects allocated so far *)
 Record G := { tasks : nat -> task; ntasks : nat; pend : list nat; staged : list body; log : list ev;
@@ -215,7 +224,8 @@ Definition sub_step (g : G) (s : sub) : G * sub :=
       if u <? ntasks g then              (* "null thread id encountered" otherwise *)
         let prev := tw_of g u in
         match st prev with
-        | st_active => (stage (rc_inc g u) (HelperBody u prev), SNone)   (* thread_id_ref_type(thrd) bound *)
+        | st_active => (add_log (stage (rc_inc g u) (HelperBody u prev)) (EvHelp (gid g u) prev), SNone)
+                                                                         (* thread_id_ref_type(thrd) bound *)
         | st_suspended | st_pending_boost => (g, SCas u prev)
         | _ => (g, SNone)
         end
@@ -262,6 +272,7 @@ Definition run_act (g : G) (h : nat) (me t : nat) (orig : word) : G * pc :=
       | Register => (set_reg g1 t (Some (tag (tw_of g t))), WRun t orig SNone)
       | Spawn b now => ((if now then new_task g1 (UserBody b) h else stage g1 (UserBody b)), WRun t orig SNone)
       | Resume u => (g1, WRun t orig (SIssue u))
+      | YieldTo _ => (g1, WStoreL t orig st_pending)
       end
   end.
 
